@@ -142,7 +142,8 @@ def suite(ctx, name, cases):
             # conflict table). Only a machine that behaves exactly like Appendix D with THAT selection is the known deviation
             variant = "spectq" if c01.classify(d) else "spect"
             _, T = E.run_batches(ctx, [E.case_line(variant, d, evs)], want_harness=False, nproc=1)
-            if "DIVERGE" in T[0] or "DIVERGE" in c or macro_c(c.split(" ")) == macro_s(T[0].split(" ")):
+            def core(v): return v[:-1] if v and v[-1].startswith("cfg:") else v     # (the specification's trace has no configuration token after the run finished)
+            if "DIVERGE" in T[0] or "DIVERGE" in c or core(macro_c(c.split(" "))) == core(macro_s(T[0].split(" "))):
                 st["known"] += 1; ctx.known("nested-targetless", "")
                 continue
         if c.startswith("COMPILE"): st["compile_errors"] += 1
